@@ -277,6 +277,18 @@ theorem C02_fair_progress7_partial (draws : List Nat) (sched : List (Move proto7
     ∃ s', fairRoundsT draws () 4 (FairState.start w) = some s' ∧ s'.w.quiescent :=
   P7.fair_progress7 draws sched w hadm hrun ha hb
 
+/-- **why the progress statements carry a state hypothesis** (0.6): if *both* applications called
+`connect` (simultaneous open), then in every world reachable afterwards nobody is ever pending or
+online and nobody is told `Ready` — each side ignores the other's `Connect`.  "The connecting side
+becomes ready" therefore cannot hold from every reachable state; it needs exactly one connecting
+side.  (Such worlds are reachable: example below the proof in `Tw/Proofs/ConnTimed6.lean`.) -/
+theorem C02_simultaneous_open6_witness (tl : Bool) (sched : List (Move (proto6 tl))) (w : World (proto6 tl))
+    (hadm : admissible (World.init (proto6 tl)) sched = true)
+    (hrun : NetSim.run (World.init (proto6 tl)) sched = some w) (ha : P6.hasConnect w.a) (hb : P6.hasConnect w.b) :
+    (∀ s : Side, P6.stTok (w.get s).conn.state = none) ∧
+      Tw.Conn.Event.ready ∉ w.a.events ∧ Tw.Conn.Event.ready ∉ w.b.events :=
+  P6.simultaneous_open6 tl sched w hadm hrun ha hb
+
 /-- in every reachable world (no admissibility needed) an online endpoint and its pending-or-online
 peer hold the same token, so neither drops the other's datagrams -/
 theorem tokens_agree6 (tl : Bool) (sched : List (Move (proto6 tl))) (w : World (proto6 tl))
